@@ -147,6 +147,9 @@ func Issue(o Opts, parent *Entity) *Entity {
 	if err != nil {
 		panic(err)
 	}
+	if fixed, ok := WithRFCValidity(der, t.NotBefore, t.NotAfter); ok {
+		der = fixed // the identity unless the fork's time encoder departs from RFC 5280 (see rfcvalidity.go)
+	}
 	c, err := x509.ParseCertificate(der)
 	if err != nil && x509.IsFatal(err) {
 		panic(err)
